@@ -86,7 +86,11 @@ extern "C" void harness() {
             for (unsigned u = 0; u < NM; ++u) if (u < n && C[u][v] && ref[u] == round - 1) ways += nsp[u];
             if (ways) { ref[v] = round; nsp[v] = ways; }
         }
+#ifdef FIXT
+    const unsigned t = FIXT;             // sub-query with a fixed destination
+#else
     unsigned t = nd(n);                  // observed vertex / destination
+#endif
     scans = 0;
 
 #if ALG == 0
